@@ -46,7 +46,7 @@ var rec = ev.For(prop, "fault_enumeration",
 var (
 	measurements = []string{"m", "m1", "cpu load"}
 	tagVals      = []string{"a", "b"}
-	fieldNames   = []string{"f0", "f1", "f2", "f3"}
+	fieldNames   = []string{"f0", "f1", "f2", "f3", "v0"} // sorted; "time" (illegal, stripped) sorts between f3 and v0
 	kinds        = []model.Kind{model.Float, model.Integer, model.Unsigned, model.Boolean, model.String}
 )
 
@@ -169,6 +169,8 @@ func observe(f *fix.ShardFix) (schema, error) {
 
 // ---------------------------------------------------------------------------------------------
 // points
+
+const timeField = "time"
 
 type wfield struct {
 	Name string    `json:"name"`
@@ -381,6 +383,9 @@ func (mc *machine) apply(batch []wpoint) (rejected []bool, tent []tentative) {
 	for i, p := range batch {
 		var created []tentative
 		for _, f := range p.Fields {
+			if f.Name == timeField {
+				continue
+			}
 			if k, ok := mc.sch.get(p.M, f.Name); ok {
 				if k != f.V.K {
 					rejected[i] = true
@@ -403,6 +408,9 @@ func (mc *machine) apply(batch []wpoint) (rejected []bool, tent []tentative) {
 			mc.noteCreated(c)
 		}
 		for _, f := range p.Fields {
+			if f.Name == timeField {
+				continue
+			}
 			k := dkey(p.series(), f.Name)
 			if mc.data[k] == nil {
 				mc.data[k] = map[int64]model.Val{}
@@ -891,7 +899,19 @@ func (mc *machine) genPoint(m string) wpoint {
 	for j := 0; j < nf; j++ {
 		picked[rapid.SampledFrom(fieldNames).Draw(mc.t, "fname")] = true
 	}
+	// the illegal field name "time": stripped from the point, never recorded, and no excuse for
+	// accepting a conflicting field that comes after it
+	withTime := rapid.IntRange(0, 7).Draw(mc.t, "timefield") == 0
 	for _, name := range fieldNames { // sorted
+		if name == "v0" && withTime {
+			mc.seq++
+			p.Fields = append(p.Fields, wfield{timeField, seqValue(model.Integer, mc.seq)})
+			withTime = false
+			rec.Class("write:point-with-time-field")
+			if picked[name] {
+				rec.Class("write:point-with-time-field-before-another-field")
+			}
+		}
 		if picked[name] {
 			mc.seq++
 			p.Fields = append(p.Fields, wfield{name, seqValue(mc.pickKind(m, name), mc.seq)})
